@@ -1,0 +1,46 @@
+// Copyright 2025 SCION Association
+//
+// Licensed under the Apache License, Version 2.0 (the "License");
+// you may not use this file except in compliance with the License.
+// You may obtain a copy of the License at
+//
+//   http://www.apache.org/licenses/LICENSE-2.0
+//
+// Unless required by applicable law or agreed to in writing, software
+// distributed under the License is distributed on an "AS IS" BASIS,
+// WITHOUT WARRANTIES OR CONDITIONS OF ANY KIND, either express or implied.
+// See the License for the specific language governing permissions and
+// limitations under the License.
+
+//go:build verif
+
+package ringbuf
+
+// VerifEvent is one linearization-point record of a Ring. It is emitted while the ring's mutex is
+// held, after the state change and before the mutex is released.
+type VerifEvent struct {
+	// Op is one of "write", "read", "close", "waitw", "waitr".
+	Op string
+	// Entries is the slice the caller passed (identifies the caller; for reads it holds the
+	// entries that were read in Entries[:Ret]).
+	Entries EntryList
+	Block   bool
+	// Ret is the value about to be returned (n or -1); 0 for wait and close events.
+	Ret int
+	// State after the operation.
+	Readable, Writable int
+	Closed             bool
+}
+
+// VerifTracer, when non-nil, receives every event. It is called with the ring's mutex held.
+var VerifTracer func(r *Ring, ev VerifEvent)
+
+func (r *Ring) verifTrace(op string, entries EntryList, block bool, ret int) {
+	if VerifTracer == nil {
+		return
+	}
+	VerifTracer(r, VerifEvent{
+		Op: op, Entries: entries, Block: block, Ret: ret,
+		Readable: r.readable, Writable: r.writable, Closed: r.closed,
+	})
+}
